@@ -2,6 +2,9 @@ package ledger
 
 import (
 	"fmt"
+	"github.com/nspcc-dev/neo-go/pkg/core/mempool"
+	"github.com/nspcc-dev/neo-go/pkg/core/native/nativehashes"
+	"github.com/nspcc-dev/neo-go/pkg/neotest"
 	"os"
 	"sort"
 	"strings"
@@ -121,6 +124,39 @@ func (r *run) runC02() {
 			return
 		}
 		chain = append(chain, b)
+	}
+	if cp.Scenario == 1 {
+		// reset runs end with a block that will be dropped by the reset and carries a transaction naming (Conflicts) a
+		// valid transaction of the same account that is never sent: the node reset below that block has to judge the
+		// named transaction as a node does that only ever synchronised to the target
+		if v := sim.Recover(func() {
+			a := r.prod.kr.acct(1)
+			bc := r.P.BC
+			mk := func(amount int64, names *transaction.Transaction) *transaction.Transaction {
+				tx := transaction.New(callScript(nativehashes.GasToken, "transfer", a.ScriptHash(), r.prod.kr.acctHash(2), amount, nil), 0)
+				r.prod.nonce++
+				tx.Nonce = r.prod.nonce
+				tx.ValidUntilBlock = bc.BlockHeight() + 1
+				if names != nil {
+					tx.Attributes = []transaction.Attribute{{Type: transaction.ConflictsT, Value: &transaction.Conflicts{Hash: names.Hash()}}}
+				}
+				r.prod.finishTx(tx, []neotest.Signer{a})
+				return tx
+			}
+			victim := mk(11, nil)
+			namer := mk(12, victim)
+			if b, ok := r.produce(BlockPlan{}, []*transaction.Transaction{namer}); ok {
+				chain = append(chain, b)
+				r.resetVictim = victim
+				r.out.Probes["reset_drops_a_block_naming_an_unsent_transaction"]++
+			}
+		}); v != nil && v.Class != "harness" && v.Class != "harness-panic" {
+			r.violate(v)
+			return
+		}
+		if r.fail != nil {
+			return
+		}
 	}
 	L := uint32(len(chain))
 	V := r.newNode("V", r.plan.Locals[0])
@@ -710,6 +746,19 @@ func (r *run) resetEquivalence(done, fresh *Node, target, L uint32) {
 	if tv1, tv2 := transferView(done, r.w), transferView(fresh, r.w); tv1 != tv2 {
 		r.violate(sim.Violatef("reset-transfers", "", "after Reset(%d) transfer logs / last-updated differ from a fresh node's:\n reset: %s\n fresh: %s", target, clip(tv1), clip(tv2)))
 		return
+	}
+	if tv := r.resetVictim; tv != nil {
+		// the transaction a dropped block named: both nodes know nothing of that block any more
+		e1 := done.BC.PoolTx(tv, mempool.New(1, false, nil))
+		e2 := fresh.BC.PoolTx(tv, mempool.New(1, false, nil))
+		if (e1 == nil) != (e2 == nil) {
+			r.violate(sim.Violatef("reset-conflicts", "", "after Reset(%d): a transaction that only a dropped block (height %d) named in a Conflicts attribute is judged %v by the reset node and %v by a node that only synchronised to %d", target, L, e1, e2, target))
+			return
+		}
+		r.out.Probes["reset_named_transaction_judged"]++
+		if e1 == nil {
+			r.out.Probes["reset_named_transaction_admitted_by_both"]++
+		}
 	}
 	for x := target + 1; x <= L; x++ {
 		e1 := done.AddBlockBytes(r.raw[x])
